@@ -55,6 +55,23 @@ class _O:
     def ite(self, c, a, b):
         return a if c else b
 
+    def u(self, d, i):
+        return d[i]
+
+    def name_field_ok(self, f):
+        """1..32 bytes of valid UTF-8 without trailing NUL, NUL padded"""
+        s = bytes(f).rstrip(b"\x00")
+        if not s or b"\x00" in s:
+            return False
+        try:
+            s.decode("utf-8")
+        except UnicodeDecodeError:
+            return False
+        return True
+
+    def ascii_field_ok(self, f):
+        return all(32 < b < 127 for b in bytes(f))
+
     def sig_ok(self, frame):
         from .frames import signature
 
